@@ -15,4 +15,5 @@ def units(tier):
     u.append(dict(kind="func", mechanism="bounded runtime contract (C)", name="bounded:rejected-calls", module="vf.tasks.t_frames", func="unit", args=dict(which="rejected")))
     u.append(dict(kind="func", mechanism="bounded runtime contract (C)", name="bounded:arguments-unchanged", module="vf.tasks.t_frames", func="unit", args=dict(which="arguments")))
     u.append(frame_unit("sdk+converter+reck+display", SDK_FILES + CONV_FILES + RECK_FILES + DISPLAY_FILES + TOMO_FILES + GATE_FILES))
+    u.append(dict(kind="func", mechanism="lemmas (D: z3 induction schemas)", name="lemmas:z3", module="vf.lemmas.z3lemmas", func="unit"))
     return u
